@@ -12,7 +12,8 @@ from common import emit, payload, rand_unit_quat, rand_vec, rng
 import matplotlib.colors as mcolors
 from orix.plot import DirectionColorKeyTSL, IPFColorKeyTSL
 from orix.plot.direction_color_keys import _util
-from orix.quaternion import Orientation, Rotation, symmetry
+from orix.crystal_map import Phase
+from orix.quaternion import Misorientation, Orientation, Rotation, symmetry
 from orix.vector import Vector3d
 
 P = payload()
@@ -77,6 +78,39 @@ for k in range(NK):
 
 # ----------------------------------------------------- cases per point group
 SHAPES = [(1,), (4,), (2, 3), (2, 1, 2), (3, 1)]
+# audit strata (sections (7)-(13) below): shapes with an empty axis / four axes, the combinations of
+# (improper flag) x (how the sample direction is given) x (class / symmetry of the orientation object) cycled
+# deterministically, Laue-class twins, space-group route to the point group
+SHAPES_EXTRA = [(0,), (2, 0), (1, 2, 1, 2)]
+ORI_COMBOS = [(imp, dk, oc) for imp in (False, True) for dk in ("default", "x", "nonunit", "int")
+              for oc in ("same", "C1", "other", "rotation", "misorientation")]
+NCOMBO = 5          # combinations per point group; 38 groups x 5 cover the 40 combinations ~4.75 times
+SG_OF = {}
+for _n in range(1, 231):
+    SG_OF.setdefault(symmetry.get_point_group(_n).name, _n)
+TWINS = {}          # (Laue name, canonical element set) -> (first point group, directions, colours)
+TWIN_DIRS = np.array([unit(rand_vec(R)) for _ in range(8)])
+GI = 0
+
+
+def rot_ref(q, d, imp):
+    """numpy reference for (improper) rotation q acting on d: q d q^-1, negated if improper"""
+    q = np.asarray(q, float)
+    d = np.asarray(d, float)
+    a, u = q[0], q[1:]
+    w = d + 2 * a * np.cross(u, d) + 2 * np.cross(u, np.cross(u, d))
+    return -w if imp else w
+
+
+def canon_elements(S):
+    out = []
+    for q, i in zip(S.data.reshape(-1, 4), S.improper.reshape(-1)):
+        q = np.round(q, 6) + 0.0
+        nz = q[np.abs(q) > 1e-6]
+        if nz.size and nz[0] < 0:
+            q = -q
+        out.append(tuple((q + 0.0).tolist()) + (bool(i),))
+    return tuple(sorted(out))
 
 
 def classify(ck, L, fs, v, w):
@@ -307,6 +341,288 @@ for g in symmetry._groups:
                 if np.abs(cv[order[i]] - want[i]).max() > 2e-2:
                     fail(f"corner:{nm}:{g.name}", f"vertex {fl(verts[order[i]].data)} of the {L.name} key is {fl(cv[order[i]])}, expected {nm}",
                          {"group": g.name, "v": fl(verts[order[i]].data)})
+
+    # ======================================================= audit strata (7)-(13)
+    gi = GI
+    GI += 1
+
+    def nbv(vec):
+        """is the projection of each vector of `vec` next to the sector boundary (bool array of vec.shape)"""
+        with np.errstate(all="ignore"):
+            return near_boundary(fs, vec.in_fundamental_sector(L))
+
+    def bad_rgb(c):
+        return not (np.isfinite(c).all() and c.min() >= 0 and c.max() <= 1)
+
+    # (7) other routes to the same key: the Laue group given directly, its own Laue group, the point group of a
+    #     Phase (given as point group and, where the name is a standard setting, as space group), the direction
+    #     colour key held by an IPFColorKeyTSL -- all must carry the Laue group of g and give identical colours
+    v7 = Vector3d(np.array([unit(rand_vec(R)) for _ in range(6)]))
+    v7_before = v7.data.copy()
+    c7 = ck.direction2color(v7)
+    nb7 = nbv(v7)
+    routes = [("laue", lambda: DirectionColorKeyTSL(L)),
+              ("laue-of-laue", lambda: DirectionColorKeyTSL(L.laue)),
+              ("phase-point-group", lambda: DirectionColorKeyTSL(Phase(point_group=g).point_group)),
+              ("ipf-key", lambda: IPFColorKeyTSL(g).direction_color_key),
+              ("ipf-key-laue", lambda: IPFColorKeyTSL(L, direction=Vector3d.xvector()).direction_color_key)]
+    if g.name in SG_OF:
+        routes.append(("phase-space-group",
+                       lambda: DirectionColorKeyTSL(Phase(space_group=SG_OF[g.name]).point_group)))
+    for nm, mk in routes:
+        k2 = mk()
+        c2 = k2.direction2color(v7)
+        st(f"oracle/route/{nm}")
+        if k2.symmetry.name != L.name or canon_elements(k2.symmetry) != canon_elements(L):
+            fail(f"route:{nm}:symmetry:{g.name}",
+                 f"colour key obtained via '{nm}' for point group {g.name} carries symmetry {k2.symmetry.name} with "
+                 f"{k2.symmetry.size} elements, not the Laue group {L.name} ({L.size} elements)",
+                 {"group": g.name, "route": nm, "space_group": SG_OF.get(g.name)})
+        else:
+            dev = np.abs(c2 - c7).max(axis=-1)
+            dev[nb7] = 0
+            if dev.max() > 1e-9:
+                j = int(np.argmax(dev))
+                fail(f"route:{nm}:colour:{g.name}",
+                     f"colour key obtained via '{nm}' for point group {g.name} colours {fl(v7.data[j])} as {fl(c2[j])}, "
+                     f"DirectionColorKeyTSL({g.name}) as {fl(c7[j])}",
+                     {"group": g.name, "route": nm, "v": fl(v7.data[j]), "space_group": SG_OF.get(g.name)})
+
+    # (8) integer-dtype directions = the same directions as floats; the input is not modified; a second call and a
+    #     call with one element alone give the same colours
+    ints = np.array([[R.randint(-4, 4) for _ in range(3)] for _ in range(6)])
+    ints[~ints.any(axis=1)] = [0, 0, 1]
+    ints[0] = [[0, 0, 1], [1, 0, 1], [1, 1, 1], [-1, 2, 0], [1, -1, 0], [2, 1, -3]][gi % 6]
+    vi = Vector3d(ints.copy())
+    with np.errstate(all="ignore"):
+        ci = ck.direction2color(vi)
+        cf = ck.direction2color(Vector3d(ints.astype(float)))
+    st(f"oracle/dtype/kind={vi.data.dtype.kind}")
+    if ci.shape != cf.shape or not np.array_equal(ci, cf) or bad_rgb(ci):
+        j = int(np.argmax(np.abs(ci - cf).max(axis=-1))) if ci.shape == cf.shape else 0
+        fail(f"dtype:int:direction2color:{g.name}",
+             f"integer-dtype direction {ints[j].tolist()} is coloured {fl(ci[j]) if ci.shape == cf.shape else ci.shape}, "
+             f"the same direction as floats {fl(cf[j])}", {"group": g.name, "v": ints.tolist(), "dtype": str(ints.dtype)})
+    if not np.array_equal(vi.data, ints) or vi.data.dtype != ints.dtype or not np.array_equal(v7.data, v7_before):
+        fail(f"history:input-mutated:direction2color:{g.name}", "direction2color modified its input vectors",
+             {"group": g.name, "v_int": ints.tolist(), "v": v7_before.tolist()})
+    c7b = ck.direction2color(v7)
+    st("oracle/history/repeat")
+    if not np.array_equal(c7b, c7):
+        fail(f"history:repeat:direction2color:{g.name}", "a second call of direction2color on the same key and "
+             "vectors gives other colours", {"group": g.name, "v": v7_before.tolist()})
+    for j in (gi % 6, (gi + 3) % 6):
+        c1 = ck.direction2color(Vector3d(v7_before[j])).reshape(-1)
+        st("oracle/batch-vs-single")
+        if c1.size != 3 or (not nb7[j] and np.abs(c1 - c7[j]).max() > TOL_INV):
+            fail(f"batch:single:direction2color:{g.name}",
+                 f"direction {fl(v7_before[j])} alone is coloured {fl(c1)}, as element {j} of an array {fl(c7[j])}",
+                 {"group": g.name, "v": v7_before.tolist(), "index": j})
+
+    # (9) positive scaling; equivalents NOT obtained from Symmetry.laue: the antipode and the images under the
+    #     point group's own elements and their negatives (= the Laue group by definition)
+    v9 = np.array([unit(rand_vec(R)) for _ in range(2)])
+    nb9 = nbv(Vector3d(v9))
+    c9 = ck.direction2color(Vector3d(v9))
+    scales = [1e-3, 0.05, 7.0, 300.0]
+    for j in range(len(v9)):
+        if nb9[j]:
+            continue
+        cs = ck.direction2color(Vector3d(np.array([v9[j] * s for s in scales])))
+        st("oracle/scale", len(scales))
+        if np.abs(cs - c9[j]).max() > TOL_INV:
+            i = int(np.argmax(np.abs(cs - c9[j]).max(axis=-1)))
+            fail(f"scale:direction2color:{g.name}",
+                 f"direction {fl(v9[j])} is coloured {fl(c9[j])}, the same direction scaled by {scales[i]} {fl(cs[i])}",
+                 {"group": g.name, "v": fl(v9[j]), "scale": scales[i]})
+        gv = (g * Vector3d(v9[j])).data.reshape(-1, 3)
+        own = np.vstack([-v9[j][None], gv, -gv])
+        ce = ck.direction2color(Vector3d(own))
+        dev = np.abs(ce - c9[j]).max(axis=-1)
+        st("oracle/invariance/own-elements", len(own))
+        if dev.max() > TOL_INV:
+            i = int(np.argmax(dev))
+            cls = classify(ck, L, fs, Vector3d(v9[j]), Vector3d(own[i]))
+            how = "its antipode" if i == 0 else (f"its image under element {(i - 1) % g.size} of the point group "
+                                                 f"{g.name}" + (" negated" if i > g.size else ""))
+            fail(f"invariance:direction:{g.name}:{cls}",
+                 f"IPF colour of direction {fl(v9[j])} is {fl(c9[j])} but {how}, {fl(own[i])}, gets {fl(ce[i])} "
+                 f"(key of point group {g.name}, Laue group {L.name})",
+                 {"group": g.name, "v": fl(v9[j]), "equivalent": fl(own[i]), "colour": fl(c9[j]),
+                  "colour_equivalent": fl(ce[i])})
+
+    # (10) point groups with the same Laue group (same element set) share one key
+    tkey = canon_elements(L)
+    with np.errstate(all="ignore"):
+        ct = ck.direction2color(Vector3d(TWIN_DIRS))
+    with np.errstate(all="ignore"):
+        ht = Vector3d(TWIN_DIRS).in_fundamental_sector(L)
+    if tkey in TWINS:
+        g0, c0t, h0t = TWINS[tkey]
+        dev = np.abs(ct - c0t).max(axis=-1)
+        dev[near_boundary(fs, ht) | near_boundary(fs, h0t)] = 0
+        st("oracle/laue-class-twin")
+        if dev.max() > TOL_INV:
+            j = int(np.argmax(dev))
+            # the two keys differ only in the ORDER of the Laue elements; the same direction is then folded onto
+            # two different equivalents h0, h1: the same defect class as a failed invariance under a Laue element
+            # (signature of that stratum); anything else keeps its own signature
+            if not (bool((h0t[j] <= fs).all()) and bool((ht[j] <= fs).all())):
+                cls = "outside-sector"
+            elif np.abs(h0t[j].unit.data - ht[j].unit.data).max() > 1e-6:
+                cls = "two-in-sector"
+            else:
+                cls = "other"
+            fail(f"invariance:direction:{g.name}:{cls}" if cls != "other" else f"laue-class:twin:{g.name}",
+                 f"point groups {g0} and {g.name} have the same Laue group {L.name} (same elements, other order) but "
+                 f"colour {fl(TWIN_DIRS[j])} as {fl(c0t[j])} and {fl(ct[j])}: it is folded to the equivalent "
+                 f"directions {fl(h0t.data[j])} and {fl(ht.data[j])}",
+                 {"group": g.name, "group0": g0, "v": fl(TWIN_DIRS[j]), "h0": fl(h0t.data[j]), "h": fl(ht.data[j])})
+    else:
+        TWINS[tkey] = (g.name, ct, ht)
+
+    # (11) orientations: (improper flag) x (sample direction default / positional x / non-unit keyword / integer
+    #      dtype with the Laue group given) x (Orientation with symmetry g / without / with another group /
+    #      Rotation / Misorientation), cycled; reference = numpy rotation of the sample direction; equivalents:
+    #      the flipped improper flag and every Laue element from the left
+    other_g = symmetry._groups[(gi * 5 + 11) % len(symmetry._groups)]
+    for k in range(NCOMBO):
+        cnt = gi * NCOMBO + k
+        imp, dk, oc = ORI_COMBOS[(cnt * 7) % len(ORI_COMBOS)]
+        q = rand_unit_quat(R)
+        if oc == "same":
+            obj = Orientation(q, symmetry=g)
+        elif oc == "C1":
+            obj = Orientation(q)
+        elif oc == "other":
+            obj = Orientation(q, symmetry=other_g)
+        elif oc == "rotation":
+            obj = Rotation(q)
+        else:
+            obj = Misorientation(q, symmetry=(g, other_g))
+        if imp:
+            obj.improper = np.array([True])
+        if dk == "default":
+            d = np.array([0.0, 0.0, 1.0])
+            key = IPFColorKeyTSL(g)
+        elif dk == "x":
+            d = np.array([1.0, 0.0, 0.0])
+            key = IPFColorKeyTSL(g, Vector3d.xvector())
+        elif dk == "nonunit":
+            d = np.array(rand_vec(R), float) * R.choice([1e-2, 0.3, 40.0])
+            key = IPFColorKeyTSL(g, direction=Vector3d(d))
+        else:
+            d = np.array([[1, -2, 2], [0, 1, 1], [-1, -1, 3], [2, 0, -1]][cnt % 4])
+            key = IPFColorKeyTSL(L, direction=Vector3d(d.copy()))
+            d = d.astype(float)
+        qb, ib, db = obj.data.copy(), obj.improper.copy(), key.direction.data.copy()
+        c0 = key.orientation2color(obj)
+        st(f"oracle/ori-combo/improper={imp}/dir={dk}/obj={oc}")
+        sigc = f"{g.name}:{oc}:{dk}:improper={imp}"
+        rep = {"group": g.name, "q": q, "imp": int(imp), "d": fl(d), "object": oc, "direction_kind": dk,
+               "other_group": other_g.name}
+        if c0.shape != (1, 3) or bad_rgb(c0):
+            fail(f"range:orientation2color:{sigc}", f"orientation colour has shape {c0.shape}, values {fl(c0)}", rep)
+            continue
+        if not (np.array_equal(obj.data, qb) and np.array_equal(obj.improper, ib)
+                and np.array_equal(key.direction.data, db)):
+            fail(f"history:input-mutated:orientation2color:{g.name}", "orientation2color modified the orientation or "
+                 "the sample direction of the key", rep)
+        vref = rot_ref(q, d, imp)
+        Vref = Vector3d(vref)
+        if nbv(Vref)[0]:
+            continue
+        cref = ck.direction2color(Vref)[0]
+        if np.abs(cref - c0[0]).max() > TOL_INV:
+            fail(f"orientation2color:reference:{sigc}",
+                 f"orientation {q} (improper={imp}, {oc}) with sample direction {fl(d)} is coloured {fl(c0)}; the "
+                 f"rotated direction {fl(vref)} (numpy) is coloured {fl(cref)}", rep)
+        eq = Rotation(L) * obj
+        ce = np.vstack([key.orientation2color(-obj), key.orientation2color(eq)])
+        dev = np.abs(ce - c0[0]).max(axis=-1)
+        st("oracle/invariance/orientation-combo", L.size + 1)
+        if dev.max() > TOL_INV:
+            j = int(np.argmax(dev))
+            w = Vector3d(-vref) if j == 0 else L[j - 1] * Vref
+            cls = classify(ck, L, fs, Vref, w)
+            how = "with the improper flag flipped" if j == 0 else f"S[{j - 1}]*o under the Laue group {L.name}"
+            fail(f"invariance:orientation:{g.name}:{cls}",
+                 f"IPF colour of orientation {q} (improper={imp}, {oc}, sample direction {fl(d)}) is {fl(c0)} but "
+                 f"the equivalent orientation {how} of {g.name} gets {fl(ce[j])}", dict(rep, element=j - 1))
+
+    # (12) orientations that take the sample direction z exactly onto special points of the sector
+    zc = cu.data.reshape(3)
+    tgt = [("identity", np.array([0.0, 0.0, 1.0])), ("to-centre", zc)]
+    if nv:
+        tgt.append(("to-vertex", unit(verts[gi % nv].data.reshape(3))))
+    for nm, t in tgt:
+        ax = np.cross([0.0, 0.0, 1.0], t)
+        if np.linalg.norm(ax) < 1e-12:
+            qs = [1.0, 0.0, 0.0, 0.0] if t[2] > 0 else [0.0, 1.0, 0.0, 0.0]
+        else:
+            ang = math.acos(max(-1.0, min(1.0, float(t[2]))))
+            qs = [math.cos(ang / 2)] + (math.sin(ang / 2) * unit(ax)).tolist()
+        cs_ = IPFColorKeyTSL(g).orientation2color(Orientation(qs, symmetry=g))
+        st(f"oracle/ori-special/{nm}")
+        rep = {"group": g.name, "q": qs, "d": [0.0, 0.0, 1.0], "target": fl(t)}
+        if cs_.shape != (1, 3) or bad_rgb(cs_):
+            fail(f"range:orientation2color:{g.name}:{nm}", f"orientation taking z to the {nm} point {fl(t)} is "
+                 f"coloured {fl(cs_)}", rep)
+        elif nm == "identity" and not np.array_equal(cs_, ck.direction2color(Vector3d.zvector())):
+            fail(f"orientation2color:special:{g.name}:identity", f"identity orientation is coloured {fl(cs_)}, the "
+                 f"direction z {fl(ck.direction2color(Vector3d.zvector()))}", rep)
+        elif nm == "to-centre" and np.abs(cs_ - 1).max() > 1e-4:
+            fail(f"orientation2color:special:{g.name}:to-centre", f"orientation taking z to the sector centre "
+                 f"{fl(t)} is coloured {fl(cs_)}, not white", rep)
+
+    # (13) empty arrays and four axes; orientation arrays with several axes against the outer product with the
+    #      Laue group
+    for shp in SHAPES_EXTRA:
+        n = int(np.prod(shp))
+        arr = np.array([rand_vec(R) for _ in range(n)], float).reshape(shp + (3,))
+        qq = np.array([rand_unit_quat(R) for _ in range(n)], float).reshape(shp + (4,))
+        st(f"oracle/shape/{'empty' if n == 0 else 'ndim=%d' % len(shp)}")
+        try:
+            c = ck.direction2color(Vector3d(arr))
+            co = IPFColorKeyTSL(g).orientation2color(Orientation(qq, symmetry=g))
+        except Exception as ex:  # noqa
+            fail(f"shape:raises:{g.name}", f"colouring directions / orientations of shape {shp} raised "
+                 f"{type(ex).__name__}: {ex}", {"group": g.name, "shape": shp, "v": arr.tolist(), "q": qq.tolist()})
+            continue
+        if c.shape != shp + (3,):
+            fail(f"shape:direction2color:{g.name}", f"colour array has shape {c.shape} for directions of shape {shp}",
+                 {"group": g.name, "shape": shp, "v": arr.tolist()})
+        elif n and (bad_rgb(c) or not np.array_equal(
+                ck.direction2color(Vector3d(arr.reshape(-1, 3))).reshape(shp + (3,)), c)):
+            fail(f"shape:layout:{g.name}", "colour of a reshaped array is not the reshaped colour array",
+                 {"group": g.name, "shape": shp, "v": arr.tolist()})
+        if co.shape != shp + (3,) or (n and bad_rgb(co)):
+            fail(f"shape:orientation2color:{g.name}", f"orientation colours: shape {co.shape} for {shp}",
+                 {"group": g.name, "shape": shp, "q": qq.tolist()})
+    shp = (2, 1, 2)
+    qq = np.array([rand_unit_quat(R) for _ in range(4)], float).reshape(shp + (4,))
+    dd = [Vector3d.zvector(), Vector3d.yvector()][gi % 2]
+    key = IPFColorKeyTSL(g, direction=dd)
+    o = Orientation(qq, symmetry=g)
+    c0 = key.orientation2color(o)
+    ce = key.orientation2color(Rotation(L).outer(Rotation(qq)))
+    st("oracle/invariance/orientation-nd", L.size * 4)
+    if c0.shape != shp + (3,) or ce.shape != (L.size,) + shp + (3,):
+        fail(f"shape:orientation2color:{g.name}", f"orientation colours: shapes {c0.shape}, {ce.shape} for {shp} and "
+             f"its outer product with the Laue group", {"group": g.name, "shape": shp, "q": qq.tolist()})
+    else:
+        dev = np.abs(ce - c0[None]).max(axis=-1)
+        dev[:, nbv(o * dd)] = 0
+        if dev.max() > TOL_INV:
+            j = np.unravel_index(int(np.argmax(dev)), dev.shape)
+            qj = qq[j[1:]].tolist()
+            vj = Vector3d(rot_ref(qj, dd.data.reshape(3), False))
+            cls = classify(ck, L, fs, vj, L[j[0]] * vj)
+            fail(f"invariance:orientation:{g.name}:{cls}",
+                 f"IPF colour of orientation {qj} (element {j[1:]} of an array of shape {shp}, sample direction "
+                 f"{fl(dd.data)}) is {fl(c0[j[1:]])} but S[{j[0]}]*o under the Laue group {L.name} of {g.name} "
+                 f"(outer product) gets {fl(ce[j])}",
+                 {"group": g.name, "q": qj, "d": fl(dd.data), "element": int(j[0])})
 
 # -------------------------------------------------- the cubic key, exact corners
 if not ONLY or "m-3m" in ONLY:
